@@ -1,6 +1,7 @@
 package props
 
 import (
+	"errors"
 	"bufio"
 	"fmt"
 	"os"
@@ -475,6 +476,20 @@ func c09straceChild(args []string) int {
 		}
 		if cur, err = cur.(*hpos.FS).Sub(d); err != nil {
 			return 2
+		}
+	}
+	// Sub itself validates its argument, on a file system that already has a root as well: a dir whose JOIN with the root is
+	// a fine path ("../other" below "a/b") is still an invalid name, and accepting it would move the view out of its parent
+	for _, bad := range []string{"../other", "..", "x/../../..", "/etc", "", "x/", "./x", "x//y", "../" + filepath.Base(root)} {
+		v, err := cur.(*hpos.FS).Sub(bad)
+		if err == nil || !errors.Is(err, hackpadfs.ErrInvalid) {
+			where := ""
+			if osfs, ok := v.(*hpos.FS); ok && osfs != nil {
+				if p, perr := osfs.ToOSPath("probe"); perr == nil {
+					where = " (the view maps \"probe\" to " + p + ")"
+				}
+			}
+			fmt.Printf("BADERR Sub(%q) on a file system with %d Sub roots -> %v, want ErrInvalid%s\n", bad, len(chain)+1, err, where)
 		}
 	}
 	fmt.Printf("TID %d\n", syscall.Gettid())
